@@ -137,11 +137,15 @@ theorem lt_small_abs (d : 𝕜) :
     = true ↔ _
   rw [decide_eq_true_iff, RCLike.ofReal_re, RCLike.ofReal_re]
 
+theorem isZero_iff (d : 𝕜) : (NumOps.isZero d = true) ↔ d = 0 := by
+  show @decide (d = 0) (Classical.propDecidable _) = true ↔ _
+  exact @decide_eq_true_iff _ (Classical.propDecidable _)
+
 theorem safeDiv_eq (a d : 𝕜) : safeDiv a d = sdiv smallR a d := by
   unfold safeDiv sdiv
-  by_cases h : ‖d‖ < smallR
-  · rw [if_pos ((lt_small_abs d).mpr h), if_pos h]; rfl
-  · rw [if_neg (fun h' => h ((lt_small_abs d).mp h')), if_neg h]; rfl
+  by_cases h : d = 0
+  · rw [if_pos ((isZero_iff d).mpr h), if_pos h]; rfl
+  · rw [if_neg (fun h' => h ((isZero_iff d).mp h')), if_neg h]; rfl
 
 /-! ## bridge level 0 → 1: one column -/
 
